@@ -146,7 +146,7 @@ class C19(Prop):
         out = []
         shown = set()
         for t in trace.split():
-            if re.match(r"^(conn\.(WT|sid|ob|ou|ab|au|dgs|dgr)|w\d+s?\.(wr|ra|rf|rt|sp|sd|wf|wt|fi|cl|sh|rst|ss))=", t):
+            if re.match(r"^(conn\.(WT|sid|ob|ou|ab|au|dgs|dgr)|w\d+s?\.(wr|ra|rf|rt|rff|rtf|sp|sd|wf|wt|fi|cl|sh|rst|ss))=", t):
                 out.append(t)
             m = re.match(r"^conn\.(ab=bidi|au=uni):session=\d+:stream=(\d+)$", t)
             if m:
@@ -195,21 +195,22 @@ class C19(Prop):
                 "ab " if "conn.ab" in line else "", "au " if "conn.au" in line else "",
                 "ob " if "conn.ob" in line else "", "ou" if "conn.ou" in line else "", buf)
         # the cases about the I/O faces: which read face(s), which write face(s), and the most telling thing that happened
-        names = {"ra": "poll_data", "rf": "futures", "rt": "tokio", "wr": "poll_send", "wf": "futures", "wt": "tokio", "sd": "send_data"}
-        rd = sorted({names[k] for k in api if k in ("ra", "rf", "rt")})
+        names = {"ra": "poll_data", "rf": "futures", "rt": "tokio", "rff": "futures-fill", "rtf": "tokio-fill",
+                 "wr": "poll_send", "wf": "futures", "wt": "tokio", "sd": "send_data"}
+        rd = sorted({names[k] for k in api if k in ("ra", "rf", "rt", "rff", "rtf")})
         wr = sorted({names[k] for k in api if k in ("wr", "wf", "wt", "sd")})
         trace = raw.split(" | ")[0]
         if "H3_DATAGRAM_ERROR" in raw:
             what = "datagram-error"
         elif re.search(r"w\d+s?\.(w[rft]|sd)=err:rterm", trace):
             what = "write-stopped"
-        elif re.search(r"w\d+s?\.r[aft]=[^ ]*err:rterm", trace):
+        elif re.search(r"w\d+s?\.r[aft][ft]?=[^ ]*err:rterm", trace):
             what = "read-reset"
         elif re.search(r"pending=\[[^\]]*(w\d|conn\.o)", raw):
             what = "left-waiting"
         elif re.search(r"w\d+s?\.w[ft]=ok:n=\d+,", trace) or ",wc=" in line.split()[2]:
             what = "credit-piecewise"
-        elif re.search(r"w\d+s?\.r[ft]=[^ ]*:more", trace):
+        elif re.search(r"w\d+s?\.r[ft][ft]?=[^ ]*:more", trace):
             what = "read-partial"
         elif "sp" in api:
             what = "split"
@@ -513,9 +514,17 @@ class C19(Prop):
         return [4096]
 
     def read_op(self, rng, maxchunk, calls=None):
-        m = rng.choice(["rf", "rf", "rt", "rt", "ra"]) if calls is None else rng.choice(["rf", "rt"])
+        # `rff` / `rtf` = FILL mode: each caller buffer is filled to its end by as many calls as it takes (tokio: one
+        # ReadBuf across the calls, so poll_read sees partly filled buffers; futures: the unfilled sub-slice)
+        m = rng.choice(["rf", "rf", "rt", "rt", "ra", "rff", "rtf", "rtf"]) if calls is None else \
+            rng.choice(["rf", "rt", "rff", "rtf"])
         if m == "ra":
             return "ra"
+        if m in ("rff", "rtf") and rng.random() < 0.6:
+            # buffers that a chunk will cross: larger than the smallest, smaller than two of the chunks
+            sizes = [rng.choice([2, 3, 5, 8, maxchunk + 1, maxchunk + 2, 2 * maxchunk - 1, 2 * maxchunk + 1])
+                     for _ in range(rng.randrange(1, 4))]
+            return "%s:%s%s" % (m, ",".join(str(max(1, x)) for x in sizes), "" if calls is None else ":%d" % calls)
         return "%s:%s%s" % (m, ",".join(map(str, self.buf_sizes(rng, maxchunk))), "" if calls is None else ":%d" % calls)
 
     def merge(self, rng, a, b):
